@@ -8,7 +8,10 @@ use std::sync::atomic::Ordering::{Acquire, Relaxed, Release};
 
 use crossbeam_utils::CachePadded;
 use linear_hashtbl::raw::RawTable;
+#[cfg(not(oxidd_verif))]
 use parking_lot::{Mutex, MutexGuard};
+#[cfg(oxidd_verif)]
+use crate::util::verif_lock::{Mutex, MutexGuard};
 use rustc_hash::FxHasher;
 
 use oxidd_core::Tag;
